@@ -180,6 +180,62 @@ let () =
               Printf.printf "%s nt=%s nx=%s nxc=%s\n" (match v with Accept -> "accept" | Reject -> "reject") (string_of_z nt)
                 (String.concat "," (List.map string_of_z (grid_sizes dims))) (String.concat "," (List.map string_of_z nxc))
             end
+          | "validate" ->
+            (* validate kind=<k> n=<n> rof=<r> temp=<q> kbt=<q> bfinf=0|1 explore=0|1  s:<kw>=<text>  l:<kw>=<t1,t2,..>  f:<kw>=on|off *)
+            let scal = ref [] and lists = ref [] and flags = ref [] in
+            Hashtbl.iter (fun k v ->
+                if String.length k > 2 && k.[1] = ':' then begin
+                  let kw = String.sub k 2 (String.length k - 2) in
+                  match k.[0] with
+                  | 's' -> (match tok_of_text v with Some t -> scal := (coq_string kw, t) :: !scal | None -> ())
+                  | 'l' -> lists := (coq_string kw, List.filter_map (fun w -> if w = "" then None else tok_of_text w) (String.split_on_char ',' v)) :: !lists
+                  | 'f' -> flags := (coq_string kw, (v = "on")) :: !flags
+                  | _ -> ()
+                end) tbl;
+            let e = { e_scalars = !scal; e_lists = !lists; e_flags = !flags } in
+            let qof k d = match parse_real (tok_of_text (let v = get k in if v = "-" then d else v)) with QVal q -> q | _ -> { qnum = Z0; qden = XH } in
+            let rec nat_of_int k = if k <= 0 then O else S (nat_of_int (k - 1)) in
+            let n = nat_of_int (int_of_string (let v = get "n" in if v = "-" then "1" else v)) in
+            let x = (match get "kind" with
+                | "colvarx" -> fst (colvarx_validate (qof "temp" "300") e)
+                | "walls" -> fst (walls_validate n e)
+                | "opesx" -> fst (opesx_validate (qof "kbt" "1") (get "bfinf" = "1") (get "explore" = "1") e)
+                | "metax" -> fst (metax_validate n e)
+                | "abfshared" -> fst (abfshared_validate rof e)
+                | "alb" -> fst (alb_validate n e)
+                | "kmoving" -> fst (kmoving_validate rof e)
+                | _ -> { x_err = true; x_bug = true; x_mem = true }) in
+            print_endline (if not x.x_err then "ok" else "input" ^ (if x.x_bug then ",bug" else "") ^ (if x.x_mem then ",memory" else ""))
+          | "session" ->
+            (* have_cv=.. have_bias=n:t,.. cfgs=<cfg>|<cfg>|RESET|...  with <cfg> = cvs/biases,
+               cvs = name:fails:walls,...  (walls 1 = the variable queues a harmonicWalls block "<name>w"),
+               biases = type:name:fails,...;type:...   ("-" = none).  Prints the lists after every configuration. *)
+            let split c s = List.filter (fun x -> x <> "" && x <> "-") (String.split_on_char c s) in
+            let g k = let v = get k in if v = "-" then "" else v in
+            let have_cv = List.map coq_string (split ',' (g "have_cv")) in
+            let have_b = List.map (fun nb -> match String.split_on_char ':' nb with [n; t] -> (coq_string n, coq_string t) | _ -> (coq_string nb, coq_string ""))
+                (split ',' (g "have_bias")) in
+            let st = ref { ms_lists = { l_colvars = have_cv; l_biases = have_b; l_err = false }; ms_pending = [] } in
+            let outs = ref [] in
+            List.iter (fun cfg ->
+                if cfg = "RESET" then
+                  st := { ms_lists = { l_colvars = []; l_biases = []; l_err = false }; ms_pending = !st.ms_pending }   (* reset() does not touch extra_conf *)
+                else begin
+                  let cvs_s, b_s = match String.split_on_char '/' cfg with [a; b] -> (a, b) | [a] -> (a, "") | _ -> ("", "") in
+                  let cvs = List.map (fun b -> match String.split_on_char ':' b with
+                      | [n; f; w] -> { cb_block = { k_name = coq_string n; k_type = coq_string "colvar"; k_fails = (f = "1") };
+                                       cb_walls = (if w = "1" then Some { k_name = coq_string (n ^ "w"); k_type = coq_string "harmonicwalls"; k_fails = false } else None) }
+                      | _ -> { cb_block = { k_name = coq_string b; k_type = coq_string "colvar"; k_fails = false }; cb_walls = None }) (split ',' cvs_s) in
+                  let by_type = List.map (fun grp -> List.map (fun b -> match String.split_on_char ':' b with
+                      | [t; n; f] -> { k_name = coq_string n; k_type = coq_string t; k_fails = (f = "1") }
+                      | _ -> { k_name = coq_string b; k_type = coq_string ""; k_fails = false }) (split ',' grp)) (split ';' b_s) in
+                  st := parse_config_ext true cvs by_type !st
+                end;
+                if cfg <> "RESET" then outs := (Printf.sprintf "%s cv=%s bias=%s" (if !st.ms_lists.l_err then "reject" else "accept")
+                           (String.concat "," (List.map ocaml_string !st.ms_lists.l_colvars))
+                           (String.concat "," (List.map (fun (n, _) -> ocaml_string n) !st.ms_lists.l_biases))) :: !outs)
+              (List.filter (fun x -> x <> "") (String.split_on_char '|' (get "cfgs")));
+            print_endline (String.concat " ; " (List.rev !outs))
           | "rollback" ->
             (* have_cv=a,b have_bias=n:t,n:t cvs=name:0|1,... biases=type:name:0|1,...;type:... (fails flag) *)
             let split c s = List.filter (fun x -> x <> "") (String.split_on_char c s) in
